@@ -84,6 +84,18 @@ set_option maxRecDepth 100000 in
 `payloadlen`; the second `assert!` then fires (a panic, not an out-of-bounds read) -/
 theorem payloadlen_beyond_buffer_panics : RecvMsgOut.new bufTrunc 0 = .panic := rfl
 
+def bufClen16 : Bytes := RecvMsgOut.layout [] [] [0x68, 0x69] 0 16
+
+set_option maxRecDepth 100000 in
+/-- the op (which tells the kernel the size of the control area) and the result parser must use the
+SAME control length: a buffer laid out for 16 control bytes parsed with `clen = 13` yields the payload
+with 3 stale control-area bytes in front (seeded change C14-a rounded the op's value up to the `cmsghdr`
+alignment while the stream adapter kept parsing with the caller's value) -/
+theorem clen_mismatch_counterexample :
+    (RecvMsgOut.Parsed.mk bufClen16 13).data = .ok [0, 0, 0, 0x68, 0x69] ∧
+      (RecvMsgOut.Parsed.mk bufClen16 16).data = .ok [0x68, 0x69] := by
+  constructor <;> rfl
+
 /-! ## stream adapter: what "ends" means -/
 
 open Compio.MultiStream in
